@@ -34,7 +34,8 @@ enum { MAXT = 16, MAXOBJ = 256 };
 enum OpKind { OP_NONE, OP_START, OP_LOCK, OP_TRYLOCK, OP_UNLOCK, OP_CWAIT, OP_CWAKE, OP_RELOCK, OP_SIGNAL, OP_BCAST, OP_JOIN, OP_YIELD, OP_ATOMIC, OP_EXIT };
 static const char* const opName[] = { "none", "start", "lock", "trylock", "unlock", "cwait", "cwake", "relock", "signal", "bcast", "join", "spawned", "atomic", "exit" };
 struct VMutex { void* addr; int owner; int count; bool recursive; bool live; };
-struct VCond { void* addr; bool live; };
+struct VCond { void* addr; bool live; int gen; };
+static int condGen = 0;
 struct VThread
 {
   bool used, finished; pthread_t real; sem_t go; OpKind pend; void* obj; void* obj2; int joinTarget;
@@ -64,7 +65,7 @@ static VCond* CV(void* a, bool create)
   for(int i = 0; i < ncnd; ++i) if(cnd[i].addr == a && cnd[i].live) return &cnd[i];
   if(!create) return 0;
   if(ncnd >= MAXOBJ) { printf("X too many condvars\n"); fflush(stdout); _exit(7); }
-  VCond* c = &cnd[ncnd++]; c->addr = a; c->live = true; return c;
+  VCond* c = &cnd[ncnd++]; c->addr = a; c->live = true; c->gen = ++condGen; return c;
 }
 static void finish(const char* verdict, int code)
 {
@@ -183,8 +184,10 @@ int nv_pthread_cond_signal(pthread_cond_t* c)
 }
 int nv_pthread_cond_broadcast(pthread_cond_t* c)
 {
-  pthread_mutex_lock(&G); point(OP_BCAST, c);
-  if(!CV(c, false)) { char nb[64]; printf("X broadcast-on-destroyed-cond %s by=%d\n", sched_name(c, nb), self); }
+  pthread_mutex_lock(&G); VCond* v0 = CV(c, false); int g0 = v0 ? v0->gen : -1; // the object the caller is about to broadcast on
+  point(OP_BCAST, c);
+  VCond* v1 = CV(c, false);
+  if(!v1 || v1->gen != g0) { char nb[64]; printf("X broadcast-on-destroyed-cond %s by=%d\n", sched_name(c, nb), self); }
   int n = 0; for(int t = 0; t < nth; ++t) if(th[t].used && !th[t].finished && th[t].waitingOn == c) { if(!th[t].signalled) ++n; th[t].signalled = true; }
   out("bcast", c, n); pthread_mutex_unlock(&G); return 0;
 }
